@@ -22,14 +22,14 @@ def policy_input(ctx: Ctx) -> Policy:
     if not hasattr(ctx, "_oracles"):
         ctx._oracles = Oracles(ctx)  # type: ignore[attr-defined]
     o: Oracles = ctx._oracles  # type: ignore[attr-defined]
-    return Policy(count_assert="input", name="input", discharge=o.discharge, nonzero=o.nonzero)
+    return Policy(count_assert="input", name="input", discharge=o.discharge, nonzero=o.nonzero, count_index=True)
 
 
 def policy_views(ctx: Ctx) -> Policy:
     """Stateful-layer policy: as policy_input, but implicit raisers count only on operands derived from received text."""
     policy_input(ctx)
     o: Oracles = ctx._oracles  # type: ignore[attr-defined]
-    return Policy(count_assert="input", name="views", discharge=o.discharge, nonzero=o.nonzero, implicit_only_tainted=True, count_dt_edge=False)
+    return Policy(count_assert="input", name="views", discharge=o.discharge, nonzero=o.nonzero, implicit_only_tainted=True, count_dt_edge=False, count_index=True)
 
 
 def policy_fsm(ctx: Ctx) -> Policy:
@@ -41,7 +41,7 @@ def policy_fsm(ctx: Ctx) -> Policy:
     if not hasattr(ctx, "_fsmfacts"):
         ctx._fsmfacts = FsmFacts(ctx)  # type: ignore[attr-defined]
     ff = ctx._fsmfacts  # type: ignore[attr-defined]
-    return Policy(count_assert="input", name="fsm", discharge=o.discharge, nonzero=o.nonzero, implicit_only_tainted=True, count_dt_edge=False, safe_site=ff.safe_site)
+    return Policy(count_assert="input", name="fsm", discharge=o.discharge, nonzero=o.nonzero, implicit_only_tainted=True, count_dt_edge=False, safe_site=ff.safe_site, count_index=True)
 
 
 def origin_key(o: Origin) -> str:
